@@ -136,6 +136,11 @@ class Checker:
         for e, got in zip(exps, msg.fields):
             for aspect, text in canboat.compare_field(e, got, self.consts):
                 out.append((f"C01|{aspect}|{target.key}/{e.field.id}", f"{e.field.id}: {text}", case))
+        # the caller owns the message it was handed and edits it (drops fields, rewrites values); later decodes must not notice
+        for fld in msg.fields:
+            fld.value, fld.raw_value = "edited by the caller", -1
+        del msg.fields[1:]
+        msg.hash = "edited"
         return out
 
 
